@@ -249,7 +249,7 @@ def sockUntil (s : St) (term : Bytes) (timeout : Option Int) : St × Out :=
 /-- `QMI_SocketTransport.read_until_timeout` -/
 def sockRut (s : St) (n : Nat) (timeout : Option Int) : St × Out :=
   match sockRead s n timeout with
-  | (s1, .exc .timeout) => takeAll s1
+  | (s1, .exc .timeout) => takeBuf s1 n    -- `self._read_buffer[:nbytes]`, the rest stays buffered (fix 916a4b4)
   | (s1, .exc .eof) => if s1.buf.isEmpty then (s1, .exc .eof) else takeAll s1
   | r => r
 
